@@ -82,7 +82,7 @@ WHAT_FAILS = {
                                              "keeping the old relative sub-directory: absolute paths become wrong",
 }
 
-SIZES = {'quick': 3000, 'thorough': 20000}
+SIZES = {'quick': 3000, 'thorough': 120000}
 
 USER_POOL = ['alice', 'bob', 'carol', 'dave']
 FAMILIES = [
